@@ -153,6 +153,7 @@ EdgesOf(kind) ==
                           E("oneOf", "arr", "schema", TRUE), E("anyOf", "arr", "schema", TRUE),
                           E("not", "one", "schema", TRUE), E("externalDocs", "one", "externalDocs", FALSE),
                           E("discriminator", "one", "discriminator", FALSE), E("xml", "one", "xml", FALSE)}
+     [] kind = "link" -> {E("server", "one", "server", FALSE)}
      [] kind = "securityScheme" -> {E("flows", "one", "oauthFlows", FALSE)}
      [] kind = "oauthFlows" -> {E("implicit", "one", "flowImplicit", FALSE), E("password", "one", "flowPassword", FALSE),
                           E("clientCredentials", "one", "flowClient", FALSE),
